@@ -91,7 +91,7 @@ CHECKS = {
          "the scripts are replayed on the real Executer comparing the stored finalized height, the finalize events and the refusal to remove or replace finalized tips after every step. Sync scenarios (fast sync, block sync, corrupting and truncating peers, failed sync) on real "
          "networked nodes are validated by SyncTrace.tla: the finalized height never decreases and the block ids served for finalized heights never change. Reverts down to the finalized height (DeleteDown: what a sync with a chain forking below it attempts) "
          "are generated and the refusal at the finalized height checked; Net.tla (network of honest nodes) is replayed on real nodes: the stored finalized height per node follows the model and finalized ids are never replaced.",
-         "Toy application; 3 validators; scenarios sampled (seeded); invalid tie-break blocks are not generated.",
+         "Toy application; 3 validators; scenarios sampled (seeded); invalid tie-break competitors are probed at the end of every script (TieProbes).",
          "TLC model checking of Node.tla + replay of TLC scripts on the real Executer + TLA+ trace monitor of real sync scenarios", "DESIGN.md section 4 C04"),
  "C19": ("model_checking",
          "Sync.tla: BestPeers as a set of acceptable answers - TLC prints the table for all sequences of <= 4 peer tips (22,620 rows) and the real peer selection is evaluated on every row; HighestCommon / BlocksFrom specify the RPC handler answers, checked by SyncTrace.tla on "
